@@ -5,8 +5,8 @@ CONSTANTS
   Kinds = {"Replace", "Partial", "BadMarshal"}
   MaxChunks = 3
   Errnos = {"EACCES", "ENOSPC", "EIO", "ENOENT"}
-  MaxFaults = 3
-  MaxCrashes = 3
+  MaxFaults = 2
+  MaxCrashes = 2
 VIEW view
 INVARIANTS TypeOK TargetAlwaysWhole FailedStoreKeepsOldOnDisk FailedReplaceKeepsOldInMemory TempInSameDirectory
            SuccessfulStoreSyncs TempIsPrefixOfAStoredValue PublishedOnlyWhenComplete
